@@ -296,6 +296,19 @@ class C09(Check):
             if cs[1:4] != es[1:4] or sorted(c.native_gates) != sorted(e.native_gates):
                 ctx.fail("header", "[%s] header data changed: %r -> %r" % (label, cs[1:4], es[1:4]))
             ctx.state(es)
+        # ---------------- a later, unrelated circuit in which the macro names of this program are plain gates
+        macro_names = [st[1] for st in p[2] if st[0] == "macro"]
+        if macro_names:
+            probe_text = "register q[2]\n" + "".join("%s q[%d]\n" % (nm, i % 2) for i, nm in enumerate(macro_names)) + "subcircuit {\n\tg q[0]\n}\n"
+            ctx.trace()
+            try:
+                pe = impl.expand_subcircuits(impl.parse(probe_text))
+                stale = [st.name for st in pe.body.statements if isinstance(st, impl.GateStatement) and isinstance(st.gate_def, impl.Macro)]
+                if stale or pe.macros:
+                    ctx.fail("foreign-macro", "after this program was expanded, expanding %r turns the plain gates %r into calls of "
+                             "macros that the circuit does not define" % (probe_text, stale or list(pe.macros)))
+            except Exception as ex:  # noqa: BLE001
+                ctx.fail("foreign-macro", "expanding %r after this program: %s: %s" % (probe_text, type(ex).__name__, ex))
         # ---------------- behavioural
         c_sub = impl.parse(text, inject_pulses=ng)
         c_pm = impl.parse(render.text(twin), inject_pulses=ng)
